@@ -120,6 +120,53 @@ func runC16(c *Ctx, r *Report) {
 			r.Violate("R-C16.2", key, st.Pos(), "the heads stored with the truncated index are not computed from the same truncated slice: heads can name entries that were cut off (or miss the new maximal ones)")
 			continue
 		}
+		// R-C16.9: the predecessor index is rebuilt from the same truncated list (what was cut off must stop counting
+		// as a successor: an entry that comes back through a later merge would otherwise be refused as a head)
+		{
+			nextF := p.Field("", "IPFSLog", "Next")
+			rebuilt := false
+			for _, ns := range p.fieldStoresGroup(sf, nextF) {
+				if !(ns.Block() == st.Block() || (ns.Parent() == st.Parent() && (st.Block().Dominates(ns.Block()) || ns.Block().Dominates(st.Block())))) {
+					continue
+				}
+				nb := backSlice(ns.Val, nil)
+				for _, sl := range slices {
+					if nb[sl] {
+						rebuilt = true
+					}
+				}
+				// a fresh map filled by Set calls whose arguments come from the truncated list
+				allInstrs(ns.Parent(), false, func(ins ssa.Instruction) {
+					call, ok := ins.(ssa.CallInstruction)
+					if !ok {
+						return
+					}
+					com := call.Common()
+					var recv ssa.Value
+					var args []ssa.Value
+					name := ""
+					if com.IsInvoke() {
+						name, recv, args = com.Method.Name(), com.Value, com.Args
+					} else if cal := com.StaticCallee(); cal != nil && cal.Signature.Recv() != nil && len(com.Args) > 0 {
+						name, recv, args = cal.Name(), com.Args[0], com.Args[1:]
+					}
+					if name != "Set" || recv == nil || !(recv == ns.Val || nb[recv] || backSlice(recv, nil)[ns.Val]) {
+						return
+					}
+					for _, a := range args {
+						ab := backSlice(a, nil)
+						for _, sl := range slices {
+							if ab[sl] {
+								rebuilt = true
+							}
+						}
+					}
+				})
+			}
+			r.Check(rebuilt, "R-C16.9", r.Key("R-C16.9", join, "next-rebuilt", ""), st.Pos(),
+				"the predecessor index is rebuilt from the truncated list together with the entry index and the heads",
+				"the bounded merge replaces the entry index by the truncated one but leaves the predecessor index as it was: entries that were cut off still count as successors, so when one of their predecessors comes back through a later merge it is refused as a head and the log loses it (and its history) again")
+		}
 		suffix := cutIsSuffix[shared]
 		// the slice operand comes from values(), called after the unbounded heads store
 		var vcall ssa.Instruction
@@ -229,9 +276,13 @@ func runC16(c *Ctx, r *Report) {
 		}
 		r.Floor("R-C16.6", "rebuilds of the entry index in the bounded branch", nlen, 1)
 	}
+	r.Doc("R-C16.9", "when the bounded merge replaces the entry index by the truncated one, it rebuilds the predecessor index from the same list")
 	r.Doc("R-C16.8", "the list the truncated log is rebuilt from holds at least min(size, total) entries: the cut never takes more than the bound requires")
 	r.Doc("R-C16.7", "the heads of the truncated log are recomputed over the truncated list on every path (adopted from C02)")
 	importRules(c, r, "C02", []string{"R-C02.6"}, "R-C16.7")
+	r.Doc("R-C16.10", "the state a bounded merge starts from and is observed in is sound: a refused operation leaves no trace in the predecessor index (adopted from C02), and every read of the log's index happens under its lock (adopted from C13: a reader that traverses outside the lock sees neither the log before the cut nor the log after it)")
+	importRules(c, r, "C02", []string{"R-C02.7"}, "R-C16.10")
+	importRules(c, r, "C13", []string{"R-C13.1"}, "R-C16.10")
 	r.Doc("R-C16.5", "the bounded merge computes its candidates, validates, applies and truncates in one critical section of the destination")
 	joinSingleSection(c, r, "R-C16.5", "a concurrent bounded merge truncates the log in the window and the stale difference is applied on top: the result is the tail of no serial order")
 	r.Doc("R-C16.4", "the size bound is used only in comparisons and in the truncating slice: the set of merged candidates does not depend on it")
